@@ -19,6 +19,7 @@ package dkv
 //@   requires db.wal != nil && db.mtables != nil && db.wal.activeBuffer != nil && db.wal.latestSeqNum <= db.seqNum && !db.wal.sealedFlag
 //@   modifies db.seqNum, db.live, wal.Writer.*, wal.bufferSegment.*, memtable.List.*, memtable.MemTable.*, ziptree.ZipTree.*, ziptree.Node.*
 //@   ensures db.seqNum == old(db.seqNum) + 1
+//@   ensures db.wal == old(db.wal) && db.mtables == old(db.mtables) && db.wal.activeBuffer != nil && db.wal.latestSeqNum <= db.seqNum && !db.wal.sealedFlag
 //@   assumes forall(func(k string) bool { return has(db.live, k) == (has(old(db.live), k) || k == string(key)) })
 
 //@ func DB.Delete
@@ -27,6 +28,7 @@ package dkv
 //@   requires db.wal != nil && db.mtables != nil && db.wal.activeBuffer != nil && db.wal.latestSeqNum <= db.seqNum && !db.wal.sealedFlag
 //@   modifies db.seqNum, db.live, wal.Writer.*, wal.bufferSegment.*, memtable.List.*, memtable.MemTable.*, ziptree.ZipTree.*, ziptree.Node.*
 //@   ensures db.seqNum == old(db.seqNum) + 1
+//@   ensures db.wal == old(db.wal) && db.mtables == old(db.mtables) && db.wal.activeBuffer != nil && db.wal.latestSeqNum <= db.seqNum && !db.wal.sealedFlag
 //@   assumes forall(func(k string) bool { return has(db.live, k) == (has(old(db.live), k) && k != string(key)) })
 
 // ScanPrefix: exactly the live keys having the prefix, each once, ascending.
